@@ -131,11 +131,12 @@ func (c *MidD) Validate() error { return own(c) }
 
 // ---- depth 3 ----
 
+// TopA ends with a structure (a ValidateEmbedded loop that stops one field early would miss it).
 type TopA struct {
 	AppName string        `mapstructure:"app_name"`
 	Deep    MidA          `mapstructure:"deep_config"`
-	Other   LeafB         `mapstructure:"other"`
 	Grace   time.Duration `mapstructure:"grace"`
+	Other   LeafB         `mapstructure:"other"`
 }
 
 func (c *TopA) Validate() error {
